@@ -124,12 +124,23 @@ def apply_site(lines, site):
 
 
 def sh(cmd, cwd=None, timeout=None, env=ENV):
+    """run in its own process group; on timeout the whole group is killed (a hung test binary must not survive its cargo)"""
+    import signal
+    p = subprocess.Popen(cmd, cwd=cwd, shell=isinstance(cmd, str), stdout=subprocess.PIPE, stderr=subprocess.STDOUT, env=env, text=True,
+                         errors="replace", start_new_session=True)
     try:
-        p = subprocess.run(cmd, cwd=cwd, shell=isinstance(cmd, str), stdout=subprocess.PIPE, stderr=subprocess.STDOUT,
-                           timeout=timeout, env=env, text=True, errors="replace")
-        return p.returncode, p.stdout
-    except subprocess.TimeoutExpired as e:
-        return 124, (e.stdout or b"").decode("utf8", "replace") if isinstance(e.stdout, bytes) else (e.stdout or "")
+        out, _ = p.communicate(timeout=timeout)
+        return p.returncode, out
+    except subprocess.TimeoutExpired:
+        try:
+            os.killpg(p.pid, signal.SIGKILL)
+        except OSError:
+            pass
+        try:
+            out, _ = p.communicate(timeout=10)
+        except Exception:
+            out = ""
+        return 124, out or ""
 
 
 def worker(k, q, results, lock, props, args):
